@@ -1372,3 +1372,42 @@ def rule_dfs_busy(mod, rep):
             else:
                 why = "supno[perm_r[krow]] is read on the edge perm_r[krow] < fstcol"
         rep.check(ok, "DFS-BUSY", "%s#U-row" % f.name, "U-rows are the rows pivoted inside the panel", why + ": rows of busy supernodes below the panel are explored", f.file, f.name)
+
+
+# ---------------------------------------------------------------------------------------------------------------------------------
+# BARRIER-ALL (C04): a thread that other threads wait for at a barrier arrives there on every path
+# ---------------------------------------------------------------------------------------------------------------------------------
+def _barrier_escapes(f):
+    """returns of f that are reachable from its entry without passing a pthread_barrier_wait, for functions that call one"""
+    waits = [c for c in f.calls("pthread_barrier_wait")]
+    if not waits:
+        return None
+    ws = {c.i for c in waits}
+    R = f.reach([f.blocks[0].insts[0]], include_start=True, stop=lambda x: x.i in ws)
+    return [f.inst[i] for i in R if f.inst[i].op == "ret"]
+
+
+def rule_barrier_all(mod, rep):
+    rep.rule("BARRIER-ALL", "a barrier is initialised for a fixed number of participants (nprocs): a function that calls pthread_barrier_wait has no return that is reachable from "
+             "its entry without passing a wait - a worker that leaves early (it could not get its work arrays) never arrives, the others block for ever and pthread_join never "
+             "returns. No instance on today's tree (the library uses no barrier); the rule carries a positive example (sa/positive/barrier.c) that is judged on every run", floor=0)
+    import os
+    from .. import build as _b, ir as _ir
+    try:
+        pm = _ir.Module(_b.build_snippet(os.path.join(os.path.dirname(_b.IRDUMP), "positive", "barrier.c")))
+        v = {fn: bool(_barrier_escapes(pm.funcs[fn])) for fn in ("barrier_bad", "barrier_good")}
+        if v != {"barrier_bad": True, "barrier_good": False}:
+            rep.brk("ANALYSIS-BROKEN BARRIER-ALL: positive example misjudged: %r" % v)
+        else:
+            rep.note("BARRIER-ALL positive example sa/positive/barrier.c: early return before / after the barrier told apart")
+    except Exception as e:
+        rep.brk("ANALYSIS-BROKEN BARRIER-ALL: positive example failed: %s" % e)
+    for f in mod.funcs.values():
+        if not f.blocks:
+            continue
+        esc = _barrier_escapes(f)
+        if esc is None:
+            continue
+        rep.scope([f.name])
+        rep.check(not esc, "BARRIER-ALL", "%s#barrier" % f.name, "every return lies behind the barrier",
+                  "%s can return at %s without arriving at the barrier the other threads wait at: they block for ever" % (f.name, esc[0].loc if esc else ""), esc[0].loc if esc else f.file, f.name)
